@@ -190,7 +190,7 @@ def sampleB (cfg : SamplerCfg) (mol : Mol) : Py Mol := do
 /-- nodes reached from `seen` in at most `fuel` rounds of adding all neighbours -/
 def reachSet (m : Mol) : Nat → List Key → List Key
   | 0, seen => seen
-  | fuel + 1, seen => reachSet m fuel (seen ++ seen.flatMap m.neighbors)
+  | fuel + 1, seen => reachSet m fuel (seen ++ seen.flatMap m.neighbors).eraseDups
 
 /-- executable connectedness: every node is found from the first one within `n` rounds -/
 def Mol.connb (m : Mol) : Bool :=
